@@ -13,6 +13,7 @@
 //	                      view: type settings are immutable values (answer ok wf|nowf)
 //	enc v|n VALUE         API.Encode on the long-lived API            (ok HEX | err | panic)
 //	dec v|n HEX           API.Decode on the long-lived API            (ok VALUE N | err | panic)
+//	dec w HEX             validated API.Decode into the destination the last accepted Decode of this call site filled
 //
 // The Lean driver (drv_c03, the reference encoder / decoder) answers from the schema alone.  Go-side oracles,
 // independent of Lean, after EVERY call:
@@ -23,6 +24,8 @@
 //     gives the same answer - the answer of a call does not depend on the calls made before it;
 //   - canonical: what the validating Decode accepted re-encodes with validation to exactly b[:n];
 //   - aliasing: Decode does not change its input;
+//   - destination: a validated Decode into a destination that holds the result of an earlier Decode answers what it answers
+//     into a fresh destination (the decoded value is a function of the bytes);
 //   - every session ends with a burst of 4..8 Encode / Decode calls running at the same time on the shared API, judged by the same
 //     oracles (the thorough tier builds this part with the race detector);
 //   - layout (package refo): every `enc` answer against the reference encoder, the requests of the session up to it as the
@@ -360,9 +363,10 @@ type sess struct {
 	typeLine  string
 	calls     int
 	nLines    int
-	mapCalls  map[int]bool   // pooled rules objects a map site has used so far
-	encBySite map[int][]byte // the last encoding each call site produced (inputs of the concurrent decodes)
-	pending   *string        // the answer of the next enc request, computed beforehand by a concurrent burst
+	mapCalls  map[int]bool          // pooled rules objects a map site has used so far
+	encBySite map[int][]byte        // the last encoding each call site produced (inputs of the concurrent decodes)
+	lastDst   map[int]reflect.Value // per call site: the destination of its last accepted Decode
+	pending   *string               // the answer of the next enc request, computed beforehand by a concurrent burst
 	reported  map[string]bool
 }
 
@@ -411,8 +415,12 @@ func encodeOn(u *universe, idx int, text string, validation bool) string {
 }
 
 func decodeOn(u *universe, idx int, b []byte, validation bool) (string, reflect.Value, int) {
+	return decodeInto(u, idx, b, validation, reflect.New(u.sites[idx].t))
+}
+
+// decodeInto decodes into the destination dst (a pointer to a value of the site's type).
+func decodeInto(u *universe, idx int, b []byte, validation bool, dst reflect.Value) (string, reflect.Value, int) {
 	s := u.sites[idx]
-	dst := reflect.New(s.t)
 	var n int
 	var err error
 	p := hx.Safely(func() { n, err = u.api.Decode(ctxBg, b, dst.Interface(), s.opts(validation)...) })
@@ -481,6 +489,7 @@ func (x *sess) exec(op string) string {
 				x.typeLine = op
 				x.calls = 0
 				x.mapCalls = map[int]bool{}
+				x.lastDst = nil
 				x.reported = map[string]bool{}
 			}
 		}
@@ -521,15 +530,39 @@ func (x *sess) exec(op string) string {
 
 		return ans
 	case "dec":
-		if x.cur == nil || len(f) < 3 || (f[1] != "v" && f[1] != "n") {
+		if x.cur == nil || len(f) < 3 || (f[1] != "v" && f[1] != "n" && f[1] != "w") {
 			return "bad-op"
 		}
 		val := f[1] == "v"
 		idx := x.curIdx
 		b := hx.UnHex(f[2])
 		keep := append([]byte(nil), b...)
-		ans, d, n := decodeOn(x.u, idx, b, val)
+		dst := reflect.New(x.cur.t)
+		reused := ""
+		if f[1] == "w" {
+			// the destination an earlier accepted Decode of this call site filled (users decode into the same variable again)
+			val = true
+			if old, ok := x.lastDst[idx]; ok {
+				dst = old
+				reused = serixgen.ValText(x.cur.schema, dst.Elem(), serixgen.TextOpts{})
+			}
+		}
+		ans, d, n := decodeInto(x.u, idx, b, val, dst)
 		call := "Decode"
+		if reused != "" {
+			call = "Decode(reused destination)"
+			x.r.Count("live:decode-into-reused-destination")
+			if fresh, _, _ := decodeOn(x.u, idx, append([]byte(nil), keep...), true); fresh != ans {
+				x.fail("destination", fmt.Sprintf("validated Decode of %s answers `%s` into a destination that held `%s` and `%s` into a fresh destination: what Decode yields is not a function of the bytes (schema %s)",
+					clip(f[2], 200), clip(ans, 300), clip(reused, 200), clip(fresh, 300), clip(x.cur.sexp, 300)), "reused-destination:"+strings.SplitN(ans, " ", 2)[0]+"-vs-"+strings.SplitN(fresh, " ", 2)[0], "Decode")
+			}
+		}
+		if strings.HasPrefix(ans, "ok ") {
+			if x.lastDst == nil {
+				x.lastDst = map[int]reflect.Value{}
+			}
+			x.lastDst[idx] = dst
+		}
 		if x.pending != nil {
 			// the answer the concurrent call gave; the sequential call just made supplies the decoded value for the
 			// canonical oracle and must agree with it
@@ -639,7 +672,11 @@ func genSession(r *hx.Run, rng *hx.Rng, sub uint64) {
 			if len(b) > 2000 {
 				continue
 			}
-			x.line("dec v " + hx.Hex(b))
+			if _, again := x.lastDst[k]; again && rng.Chance(2, 3) {
+				x.line("dec w " + hx.Hex(b))
+			} else {
+				x.line("dec v " + hx.Hex(b))
+			}
 			var other []byte = b
 			if len(encs) > 0 {
 				other = encs[rng.Intn(len(encs))]
